@@ -15,9 +15,10 @@ import RwsDriver.Query
 import RwsDriver.Multipart
 import RwsDriver.ResponseM
 import RwsDriver.Serve
+import RwsDriver.Parsers
 open RwsDriver
 
-def allOps : List (String × Op) := base64Ops ++ corsOps ++ rangeMOps ++ poolOps ++ requestOps ++ configOps ++ mimeOps ++ jsonOps ++ queryOps ++ multipartOps ++ responseOps
+def allOps : List (String × Op) := base64Ops ++ corsOps ++ rangeMOps ++ poolOps ++ requestOps ++ configOps ++ mimeOps ++ jsonOps ++ queryOps ++ multipartOps ++ responseOps ++ parsersOps
 
 def runLine (st : ServeState) (line : String) : ServeState × String :=
   match (line.trimAscii.toString.splitOn " ").filter (· ≠ "") with
